@@ -34,6 +34,7 @@ type gwConfig struct {
 	sessionKey    *string
 	sessionEnc    *string
 	sessionStore  string
+	maxSessionLen int
 	providerURL   string
 	clientID      string
 	authSocket    string
@@ -92,6 +93,9 @@ func (c gwConfig) entries() []kvp {
 	}
 	if c.sessionStore != "" {
 		e = append(e, kvp{"Server", "SessionStore", q(c.sessionStore)})
+	}
+	if c.maxSessionLen > 0 {
+		e = append(e, kvp{"Server", "MaxSessionLength", fmt.Sprint(c.maxSessionLen)})
 	}
 	if c.authSocket != "" {
 		e = append(e, kvp{"Server", "AuthSocket", q(c.authSocket)})
